@@ -85,6 +85,20 @@ CHECKS = {
                      "both derived by a mechanical product-rule operator on independent derivative tables - the "
                      "differential relations between the three quantities are decided, not a transcription.",
                 technique="exhaustive enumeration of configurations and parameter special cases against a derived reference model"),
+    "C10": dict(engine=E1, ref="5/C10",
+                text="Finite space enumerated completely: every l 0..10 and m; every Cartesian permutation for l<=2 "
+                     "(all 10! for l=3 in the thorough tier), every order x sign pattern of spherical labels for "
+                     "l<=2, generating sets above, both sides, and a list of malformed requests that must raise; each "
+                     "matrix is checked to be harmonic, orthonormal, cos/sin(m phi)-phased with positive factor and "
+                     "equal to an independent generator; convention requests must be honoured bit-exactly.",
+                technique="complete enumeration of a finite convention space with analytic oracles"),
+    "C20": dict(engine=E1, ref="5/C20",
+                text="Bases of 2-5 shells x type patterns placed so that consecutive centre distances bracket "
+                     "(x0.99 / x1.01) the documented cutoff of that pair at every reference tolerance, plus 0 and 30 "
+                     "bohr; on each geometry all tolerances incl. None, with and without transformation; block "
+                     "kept/removed pattern, exact zeros, nesting in the tolerance and the s-type bound are checked "
+                     "against a 34-digit cutoff model.",
+                technique="exhaustive enumeration of configurations and critical distances against a reference model"),
 }
 
 NOT_YET = {}
